@@ -753,7 +753,20 @@ class Engine:
             # arbitrary iteration
             self.pc.append(zbool(g))
             before = dict(f.env)
-            self.exec_block(st.body)
+            lp = {"broken": False, "continued": False}
+            f.loops.append(lp)
+            try:
+                try:
+                    self.exec_block(st.body)
+                except _Continue:
+                    pass                        # `continue`: the iteration ends here, the invariant is due as after a full body
+                except _Break:
+                    raise Unsupported("break inside a loop that is cut at an invariant")
+                if lp["broken"] is not False:
+                    raise Unsupported("guarded break inside a loop that is cut at an invariant")
+            finally:
+                f.loops.pop()       # a guarded `continue` only guarded the rest of this iteration: its flag ends with the iteration
+                self.version += 1
             extra = lc["hyps"](self, before, f.env) if lc.get("hyps") else []
             inv1 = lc["inv"](self, f.env)
             self.loop_obligations.append(("inv-preserved", list(self.pc) + [zbool(self.guard())] + list(extra), inv1, lc.get("name", "loop")))
